@@ -26,7 +26,7 @@ theorem fact_translated_all :
       "duallane_DLValidateBasicDecorator_AnteHandle", "keeper_msgServer_SubmitProofExternalOwnedAccount",
       "duallane_DLSigVerificationDecorator_AnteHandle", "duallane_DLIncrementSequenceDecorator_AnteHandle",
       "duallane_DLDeductFeeDecorator_AnteHandle", "keeper_Keeper_IsEmptyAccount",
-      "keeper_erc20CustomPrecompiledContractRwTransferFrom_transfer", "indexer_TxIndexKey",
+      "keeper_erc20CustomPrecompiledContractRwTransferFrom_transfer", "types_Params_Validate", "indexer_TxIndexKey",
       "indexer_parseBlockNumberFromKey", "evmlane_ELValidateBasicEoaDecorator_AnteHandle",
       "evmlane_ELSetupExecutionDecorator_AnteHandle", "evmlane_ELEmitEventDecorator_AnteHandle"] := by
   decide +kernel
@@ -43,6 +43,7 @@ theorem fact_uninterpreted :
       "keeper_erc20CustomPrecompiledContractRwTransferFrom_transfer: from!=to",
       "keeper_erc20CustomPrecompiledContractRwTransferFrom_transfer: to==(*ast.CompositeLit)",
       "keeper_erc20CustomPrecompiledContractRwTransferFrom_transfer: literal 70cc4350 = &ethtypes.Log{Address: contractAddr, Topics: *ast.ArrayType{common.HexToHash(\"0xddf252ad1be2c89b69c2b068fc378daa952ba7f163c4a11628f55a4df523b3ef\"), common.BytesToHash(from.Bytes()), common.BytesToHash(to.Bytes())}, Data: common.BytesToHash(amount.Bytes()).Bytes()}",
+      "types_Params_Validate: call validateMinGasPrice(p.MinGasPrice)",
       "evmlane_ELValidateBasicEoaDecorator_AnteHandle: object new_BytesToAddress_712e99b6 = common.BytesToAddress(from)",
       "evmlane_ELValidateBasicEoaDecorator_AnteHandle: call evmtypes.IsEmptyCodeHash(codeHash)"] := by
   decide +kernel
